@@ -633,6 +633,13 @@ var compCorpus = []CompScenario{
 	{Pool: []ChildSpec{{"a", "l", "wc", 0, 0}, {"b", "l", "wc", 0, 8}},
 		Configs: []CompConfig{{"ok", []CompEntry{{0, 1}, {1, 1}}}, {"ok", []CompEntry{{0, 1}}}, {"ok", []CompEntry{{1, 1}, {0, 1}}}, {"ok", []CompEntry{{1, 2}}}},
 		Ops:     []CompOp{{0, "reload"}, {0, "reloadx"}}, Sequential: true},
+	// a slow starter is added and the very next reload empties the configuration: nothing may be left running
+	{Pool: []ChildSpec{{"a", "f", "wc", 0, 8}, {"b", "f", "wc", 0, 0}},
+		Configs: []CompConfig{{"ok", []CompEntry{{1, 1}}}, {"ok", []CompEntry{{0, 1}, {1, 1}}}, {"ok", nil}},
+		Ops:     []CompOp{{0, "reloadx"}}, Sequential: true},
+	{Pool: []ChildSpec{{"a", "f", "r", 0, 6}, {"b", "f", "wc", 0, 9}},
+		Configs: []CompConfig{{"ok", nil}, {"ok", []CompEntry{{0, 1}, {1, 1}}}, {"ok", nil}, {"ok", []CompEntry{{1, 2}}}},
+		Ops:     []CompOp{{0, "reloadx"}, {0, "reload"}}, Sequential: true},
 	// Run() invoked with an already cancelled context, children whose Stop waits for their Run (bundled style)
 	{Pool: []ChildSpec{{"a", "l", "wc", 0, 0}, {"b", "l", "wc", 0, 0}}, Configs: []CompConfig{{"ok", []CompEntry{{0, 1}, {1, 1}}}}, Ops: []CompOp{{0, "stop"}}, Sequential: true, PreCancel: true},
 	{Pool: []ChildSpec{{"a", "f", "wc", 0, 0}, {"b", "l", "r", 0, 0}}, Configs: []CompConfig{{"ok", []CompEntry{{0, 1}, {1, 1}}}}, Ops: nil, Sequential: true, PreCancel: true},
